@@ -19,12 +19,12 @@ RULE = ("thread programs = ordered pairs over the operation alphabet {to_pandas(
         "on one shared, fresh handle of a 2-row-group, 4-column (int, two categoricals, string) single-file dataset; over "
         "{pf[0].to_pandas(), to_pandas(), str(pf.schema), dtypes/columns/count} on a handle of a file with a nested schema "
         "(struct holding a list: the schema tree is flattened); over {to_pandas(), to_pandas(columns=[a]), "
-        "pf[1].to_pandas(), to_pandas(filters=..on the partition column), list(iter_row_groups()), dtypes/columns/count/"
+        "pf[0].to_pandas(), pf[1].to_pandas(), to_pandas(filters=..on the partition column), list(iter_row_groups()), dtypes/columns/count/"
         "partition values} on a handle of a hive dataset (2 part files, one partition column; module caches emptied "
         "after the handle is built); plus two threads calling writer.make_part_file with one shared schema/fmd; all "
-        "schedules with 0 and 1 preemptions at every source line of the traced files (quick: 21 pairs: every "
+        "schedules with 0 and 1 preemptions at every source line of the traced files (quick: 25 pairs: every "
         "handle-deriving / memoising operation as the preempted thread, filters and dtypes as the preempted thread, a "
-        "memoising operation against itself, the schema text against itself, 3 nested-schema and 3 hive pairs; thorough: all ordered pairs of the first "
+        "memoising operation against itself, the schema text against itself, 3 nested-schema and 7 hive pairs (each pick of a row group before and after the parent's full read); thorough: all ordered pairs of the first "
         "11 single-file operations, each further operation before and after {full, categories, pick0, statistics, "
         "itself}, all ordered pairs of the nested and of the hive operations, three "
         "threads at bound 1); in addition all schedules with 2 preemptions placed at focus points; focus points of the "
@@ -51,7 +51,7 @@ OPS = ["full", "cols_a", "filters", "categories", "pick0", "slice02", "iter", "h
 MORE_OPS = ["filters_c", "filters_c2", "rrgf", "rowfilter", "schema_text"]
 PARTNERS = ["full", "categories", "pick0", "statistics"]
 NESTED_OPS = ["n:pick0", "n:full", "n:schema_text", "n:meta"]
-HIVE_OPS = ["h:full", "h:cols_a", "h:pick1", "h:pfilt", "h:iter", "h:meta"]
+HIVE_OPS = ["h:full", "h:cols_a", "h:pick0", "h:pick1", "h:pfilt", "h:iter", "h:meta"]
 QUICK_PAIRS = [# a handle being derived (pf[0], iteration, head) while another thread reads, pickles; a read while one is derived
                ("pick0", "full"), ("cols_a", "pick0"), ("iter", "cols_a"), ("head1", "pickle"),
                ("statistics", "filters"), ("full", "categories"), ("categories", "full"), ("slice02", "meta"),
@@ -69,7 +69,10 @@ QUICK_PAIRS = [# a handle being derived (pf[0], iteration, head) while another t
                # the schema text against itself (module-level state of the printer), flat and nested
                ("schema_text", "schema_text"), ("n:schema_text", "n:schema_text"),
                # hive dataset: a file opened per row group, partition values, path caches
-               ("h:pfilt", "h:full"), ("h:pick1", "h:pfilt"), ("h:cols_a", "h:pick1")]
+               ("h:pfilt", "h:full"), ("h:pick1", "h:pfilt"), ("h:cols_a", "h:pick1"),
+               # a derived handle numbers the partition values it sees on its own (one of two here, and which of the
+               # two comes first in the parent is up to a set): both picks, before and after the parent's read
+               ("h:pick0", "h:full"), ("h:full", "h:pick0"), ("h:pick1", "h:full"), ("h:full", "h:pick1")]
 
 
 def kind_of(op):
@@ -272,6 +275,8 @@ def op_body(op, pf):
         return lambda: canon_df(pf[0].to_pandas())
     if op == "h:pick1":
         return lambda: canon_df(pf[1].to_pandas())
+    if op == "h:pick0":
+        return lambda: canon_df(pf[0].to_pandas())
     if op == "h:pfilt":
         return lambda: canon_df(pf.to_pandas(filters=[("p", "==", "v")]))
     if op == "slice02":
